@@ -149,6 +149,7 @@ def expected(op):
 
 
 class RemoteFamily(common.Family):
+  pct_ok = False   # timed oracles: see harness.run_random
   prop = 'C14'
   name = 'remote'
   max_steps = 3_000_000
